@@ -756,6 +756,11 @@ extern "C" fn trap_handler(_sig: libc::c_int, _info: *mut libc::siginfo_t, uctx:
             fire = seen == target;
         }
         FINE_PREV_ATOMIC.with(|c| c.set(is_atomic_at(uc.uc_mcontext.gregs[libc::REG_RIP as usize] as usize)));
+        let rip_now = uc.uc_mcontext.gregs[libc::REG_RIP as usize] as usize;
+        if fire || FIRE_PENDING.with(|c| c.get()) {
+            fire = !no_park(rip_now);
+            FIRE_PENDING.with(|c| c.set(!fire));
+        }
         if fire {
             ANCHOR_FIRED_ATOMIC.fetch_add(1, Relaxed);
             FINE_ATOMIC_TARGET.with(|c| c.set(0));
@@ -763,7 +768,7 @@ extern "C" fn trap_handler(_sig: libc::c_int, _info: *mut libc::siginfo_t, uctx:
             uc.uc_mcontext.gregs[libc::REG_EFL as usize] &= !TF;
             FINE_FIRED.fetch_add(1, Relaxed);
             point_kind("fine-preempt", K_FINE);
-        } else if left == 0 {
+        } else if left == 0 && !FIRE_PENDING.with(|c| c.get()) {
             FINE_ATOMIC_TARGET.with(|c| c.set(0));
             FINE_ON.with(|c| c.set(false));
             uc.uc_mcontext.gregs[libc::REG_EFL as usize] &= !TF;
@@ -771,6 +776,11 @@ extern "C" fn trap_handler(_sig: libc::c_int, _info: *mut libc::siginfo_t, uctx:
         return;
     }
     if left == 0 {
+        if no_park(uc.uc_mcontext.gregs[libc::REG_RIP as usize] as usize) {
+            // inside the C library: one more step, then look again
+            FINE_LEFT.with(|c| c.set(1));
+            return;
+        }
         FINE_ON.with(|c| c.set(false));
         uc.uc_mcontext.gregs[libc::REG_EFL as usize] &= !TF;
         FINE_FIRED.fetch_add(1, Relaxed);
@@ -778,7 +788,48 @@ extern "C" fn trap_handler(_sig: libc::c_int, _info: *mut libc::siginfo_t, uctx:
     }
 }
 
+/// Text ranges in which a thread is never parked by an instruction-level preemption: the C
+/// library and the dynamic linker. The scheduler's own code allocates, and the C library's
+/// allocator is not re-entrant: a thread parked in the middle of `free` (a block that the harness
+/// allocated and code under test releases) while the handler path calls `malloc` corrupts the
+/// heap of the harness - seen as garbage results in one call-race run in twelve thousand. The
+/// preemption is postponed to the first instruction outside these ranges (deterministic: the
+/// address space is not randomised).
+static NO_PARK: [(AtomicUsize, AtomicUsize); 8] = [const { (AtomicUsize::new(0), AtomicUsize::new(0)) }; 8];
+thread_local! {
+    static FIRE_PENDING: Cell<bool> = const { Cell::new(false) };
+}
+fn no_park(rip: usize) -> bool {
+    NO_PARK.iter().any(|(a, b)| {
+        let (a, b) = (a.load(Relaxed), b.load(Relaxed));
+        a != 0 && rip >= a && rip < b
+    })
+}
+fn load_no_park_ranges() {
+    let Ok(maps) = std::fs::read_to_string("/proc/self/maps") else { return };
+    let mut n = 0;
+    for l in maps.lines() {
+        let mut it = l.split_whitespace();
+        let (Some(range), Some(perm)) = (it.next(), it.next()) else { continue };
+        let path = l.rsplit(' ').next().unwrap_or("");
+        let lib = path.rsplit('/').next().unwrap_or("");
+        if !perm.contains('x') || !(lib.starts_with("libc.") || lib.starts_with("libc-") || lib.starts_with("ld-linux") || lib.starts_with("libpthread") || lib.starts_with("libgcc_s")) {
+            continue;
+        }
+        if let Some((a, b)) = range.split_once('-') {
+            if let (Ok(a), Ok(b)) = (usize::from_str_radix(a, 16), usize::from_str_radix(b, 16)) {
+                if n < NO_PARK.len() {
+                    NO_PARK[n].0.store(a, Relaxed);
+                    NO_PARK[n].1.store(b, Relaxed);
+                    n += 1;
+                }
+            }
+        }
+    }
+}
+
 pub fn install_trap_handler() {
+    load_no_park_ranges();
     #[cfg(target_arch = "x86_64")]
     // SAFETY: installing a signal handler (runs on the interrupted thread's own stack)
     unsafe {
